@@ -108,6 +108,18 @@ def bool_equiv(e, atoms, ref):
     return True
 
 
+def _key_component(v):
+    """'0' / '1' when v collects component 0 / 1 of every key of the trace dictionary: a comprehension (possibly inside
+    set(..)) over <dict>.keys() or <dict> whose element is <loop variable>[0|1]."""
+    for c in ast.walk(v):
+        if isinstance(c, (ast.ListComp, ast.SetComp, ast.GeneratorExp)) and len(c.generators) == 1 and \
+                isinstance(c.generators[0].target, ast.Name) and 'traces_ref' in U(c.generators[0].iter) and \
+                isinstance(c.elt, ast.Subscript) and isinstance(c.elt.value, ast.Name) and \
+                c.elt.value.id == c.generators[0].target.id and isinstance(c.elt.slice, ast.Constant) and c.elt.slice.value in (0, 1):
+            return str(c.elt.slice.value)
+    return None
+
+
 def key_order(ctx):
     P, G = ctx.P, ctx.G
     # dictionary key built from the headers
@@ -122,9 +134,9 @@ def key_order(ctx):
         ctx.fail('C08.2', ig, keys[0], 'trace lookup key is built from header fields %s, expected (189, 193)' % codes)
     geo = P.cls('utils.InferredGeometry3d').methods['__init__']
     for a in ast.walk(geo.node):
-        if isinstance(a, ast.Assign) and isinstance(a.targets[0], ast.Name) and 'k[' in U(a.value):
+        comp = _key_component(a.value) if isinstance(a, ast.Assign) and isinstance(a.targets[0], ast.Name) else None
+        if comp is not None:
             ax = axis_of_text(U(a.targets[0]))
-            comp = '0' if 'k[0]' in U(a.value) else '1'
             want = {'IL': '0', 'XL': '1'}.get(ax)
             if want == comp:
                 ctx.ok('C08.2', geo, a, '%s ids from key component %s' % (ax, comp))
